@@ -30,7 +30,10 @@ macro "realnum" : tactic =>
   `(tactic| (
     try simp only [N.add, N.sub, N.mul, N.div, N.neg, N.lt, N.le, N.sci, RealNum.zero_eq, RealNum.one_eq,
       RealNum.ofNat_eq, RealNum.gmin_eq, RealNum.gmax_eq, RealNum.exp_eq, RealNum.pow_eq, RealNum.abs_eq,
-      Nat.cast_ofNat, Nat.cast_zero, Nat.cast_one, gt_iff_lt, ge_iff_le] at *
+      gt_iff_lt, ge_iff_le] at *
+    -- separate pass: `RealNum.ofNat_eq` also matches standard numerals ≥ 2 (the instances unify), so it must not
+    -- be in one simp set with `Nat.cast_ofNat`
+    try simp only [Nat.cast_ofNat, Nat.cast_zero, Nat.cast_one] at *
     try simp only [RealNum.pmin_eq, RealNum.pmax_eq] at *))
 
 /-- One-step facts lift to whole runs: if every step from a state satisfying `Inv` on an input satisfying `Ok`
@@ -56,6 +59,26 @@ theorem scan_budget {σ ι ο : Type} (step : σ → ι → σ × ο)
     · simp only [scan, List.map_cons, List.sum_cons]
       linarith
     · simpa [scan] using List.Forall₂.cons h3 i3
+
+/-- the states the loop is in BEFORE each step (same length as the input list) -/
+def preStates {σ ι ο : Type} (step : σ → ι → σ × ο) : σ → List ι → List σ
+  | _, [] => []
+  | s, x :: xs => s :: preStates step (step s x).1 xs
+
+/-- a relation between the state before a step, the step's input and its output holds at every step of every run -/
+theorem scan_state_rel {σ ι ο : Type} (step : σ → ι → σ × ο) (Inv : σ → Prop) (Ok : ι → Prop)
+    (R : σ → ι → ο → Prop)
+    (hstep : ∀ s x, Inv s → Ok x → Inv (step s x).1 ∧ R s x (step s x).2) :
+    ∀ (xs : List ι) (s : σ), Inv s → (∀ x ∈ xs, Ok x) →
+      List.Forall₂ (fun (sx : σ × ι) o => R sx.1 sx.2 o) ((preStates step s xs).zip xs) (scan step s xs).2 := by
+  intro xs
+  induction xs with
+  | nil => intro s _ _; simp [scan, preStates]
+  | cons x xs ih =>
+    intro s hs hok
+    obtain ⟨h1, h2⟩ := hstep s x hs (hok x (List.mem_cons_self ..))
+    have i := ih (step s x).1 h1 (fun y hy => hok y (List.mem_cons_of_mem _ hy))
+    simpa [scan, preStates] using List.Forall₂.cons (R := fun (sx : σ × ι) o => R sx.1 sx.2 o) (a := (s, x)) h2 i
 
 /-- every element of the output list satisfies `P` when related pointwise to some input -/
 theorem forall₂_imp_forall_right {ι ο : Type} {R : ι → ο → Prop} {P : ο → Prop} (h : ∀ x o, R x o → P o) :
